@@ -3,6 +3,7 @@
 // cross-rank invariants of DESIGN.md 5.3 with purely geometric entity keys.
 #include "world_common.hpp"
 #include <kernel/geometry/mesh_file_reader.hpp>
+#include <kernel/geometry/unit_cube_patch_generator.hpp>
 #include <algorithm>
 #include <fstream>
 
@@ -512,12 +513,82 @@ namespace
     sim::probe("direct_extract_patch_workload");
   }
 
+  // The built-in decomposition of the unit cube (Geometry::UnitCubePatchGenerator: one cell per rank, patches, neighbour
+  // lists and halos are made directly, no extract_patch): all patches in one process, checked pairwise - neighbours
+  // symmetric and complete (shared vertex <=> neighbour), both halos of a pair name the same vertices in the same order -
+  // and again after joint refinements.
+  template<typename Mesh_>
+  void unit_cube_patches(wc::VertexDict& dict)
+  {
+    typedef Geometry::RootMeshNode<Mesh_> NodeType;
+    constexpr int dim = Mesh_::shape_dim;
+    // number of ranks: 2^(dim*k) cells of a k times refined cube
+    const int k = (dim == 3) ? 1 + int(sim::cfg_int("ucp_k3", 0, 1)) : 1 + int(sim::cfg_int("ucp_k12", 0, dim == 1 ? 3 : 2));
+    int nprocs = 1; for(int i = 0; i < dim * k; ++i) nprocs *= 2;
+    std::vector<std::unique_ptr<NodeType>> nodes{size_t(nprocs)};
+    std::vector<std::vector<int>> nbrs{size_t(nprocs)};
+    for(int r = 0; r < nprocs; ++r) Geometry::UnitCubePatchGenerator<Mesh_>::create_unique(r, nprocs, nodes[size_t(r)], nbrs[size_t(r)]);
+    const int refinements = int(sim::cfg_int("ucp_refine", 0, 2));
+    for(int lvl = 0; lvl <= refinements; ++lvl)
+    {
+      if(lvl > 0) for(auto& n : nodes) n = n->refine_unique();
+      // vertex keys per rank
+      std::vector<std::set<long long>> vk{size_t(nprocs)};
+      auto key_of = [&dict](const Mesh_& m, Index v) { double x[3] = {0, 0, 0}; for(int d = 0; d < Mesh_::world_dim; ++d) x[d] = double(m.get_vertex_set()[v][d]); return dict.get(x, Mesh_::world_dim); };
+      for(int r = 0; r < nprocs; ++r) { const Mesh_& m = *nodes[size_t(r)]->get_mesh(); for(Index v = 0; v < m.get_num_entities(0); ++v) vk[size_t(r)].insert(key_of(m, v)); }
+      for(int r = 0; r < nprocs; ++r)
+      {
+        const std::string where = "unit cube patches, " + std::to_string(nprocs) + " ranks, dimension " + std::to_string(dim) + ", refinement " + std::to_string(lvl) + ", rank " + std::to_string(r);
+        std::multiset<int> ms(nbrs[size_t(r)].begin(), nbrs[size_t(r)].end());
+        for(int q : nbrs[size_t(r)]) if(ms.count(q) > 1) sim::fail("NEIGHBOUR_DUPLICATE", where + ": neighbour " + std::to_string(q) + " listed twice");
+        for(int q = 0; q < nprocs; ++q)
+        {
+          if(q == r) continue;
+          bool share = false; for(long long kx : vk[size_t(r)]) if(vk[size_t(q)].count(kx)) { share = true; break; }
+          const bool listed = ms.count(q) > 0;
+          if(share && !listed) sim::fail("NEIGHBOUR_MISSING", where + ": shares a vertex with rank " + std::to_string(q) + ", which is not in its neighbour list");
+          if(!share && listed) sim::fail("NEIGHBOUR_SPURIOUS", where + ": lists rank " + std::to_string(q) + " as neighbour without sharing a vertex with it");
+          if(!listed) continue;
+          if(std::find(nbrs[size_t(q)].begin(), nbrs[size_t(q)].end(), r) == nbrs[size_t(q)].end()) sim::fail("NEIGHBOUR_ASYMMETRIC", where + ": lists rank " + std::to_string(q) + ", which does not list it");
+          if(q < r) continue;
+          const auto* h_rq = nodes[size_t(r)]->get_halo(q); const auto* h_qr = nodes[size_t(q)]->get_halo(r);
+          if(!h_rq || !h_qr) sim::fail("HALO_MISSING", where + ": no halo for neighbour " + std::to_string(q));
+          const auto& t_rq = h_rq->template get_target_set<0>(); const auto& t_qr = h_qr->template get_target_set<0>();
+          if(t_rq.get_num_entities() != t_qr.get_num_entities()) sim::fail("HALO_SET", where + ": the halos with rank " + std::to_string(q) + " have " + std::to_string(t_rq.get_num_entities()) + " and " + std::to_string(t_qr.get_num_entities()) + " vertices");
+          std::set<long long> shared; for(long long kx : vk[size_t(r)]) if(vk[size_t(q)].count(kx)) shared.insert(kx);
+          if(Index(shared.size()) != t_rq.get_num_entities()) sim::fail("HALO_SET", where + ": the halo with rank " + std::to_string(q) + " has " + std::to_string(t_rq.get_num_entities()) + " vertices, the patches share " + std::to_string(shared.size()));
+          for(Index i = 0; i < t_rq.get_num_entities(); ++i)
+          {
+            const long long a = key_of(*nodes[size_t(r)]->get_mesh(), t_rq[i]), b = key_of(*nodes[size_t(q)]->get_mesh(), t_qr[i]);
+            if(a != b) sim::fail("HALO_ORDER", where + ": entry " + std::to_string(i) + " of the vertex halos with rank " + std::to_string(q) + " names different vertices on the two sides");
+            if(!shared.count(a)) sim::fail("HALO_SET", where + ": the halo with rank " + std::to_string(q) + " names a vertex the two patches do not share");
+            ++CNT.halo_entities;
+          }
+          ++CNT.halo_pairs;
+        }
+      }
+    }
+    sim::probe("unit_cube_patch_generator_workload");
+  }
+
   template<typename S_>
   void run_world(const wc::WorldCfg& cfg)
   {
     Shared sh;
     sh.ranks.resize(size_t(cfg.n));
     SH = &sh;
+    if(sim::cfg_int("unit_cube_patches", 0, 7) == 0)
+    {
+      // hypercube meshes only (the generator decomposes the unit cube)
+      typedef typename S_::MeshType MT;
+      if constexpr(std::is_same<typename MT::ShapeType, Shape::Hypercube<MT::shape_dim>>::value)
+      {
+        sim::spawn("unit-cube-patches", []() { unit_cube_patches<MT>(SH->dict); });
+        sim::run_go();
+        SH = nullptr;
+        return;
+      }
+    }
     if(sim::cfg_int("direct_extract", 0, 3) == 0)
     {
       const wc::WorldCfg c2 = cfg;
